@@ -37,7 +37,7 @@ fn hub(label: &str, f: impl FnOnce(&mut HubCore)) -> HubCore {
 
 pub fn build(id: &str, tier: Tier) -> Option<Check> {
     let q = tier == Tier::Quick;
-    let secs = tier.pick(50.0, 1500.0);
+    let secs = tier.pick(400.0, 2400.0);
     Some(match id {
         "C02" => Check {
             id: "C02",
@@ -58,7 +58,7 @@ pub fn build(id: &str, tier: Tier) -> Option<Check> {
             ],
             rule: "same exploration as C02 with C03's oracles: the State query is recomputed from totals/supplies/pending requests of the same state in every distinct state; every successful bond, bond-stSei, convert and batch-closing unbond is compared with the exact floor arithmetic; non-trivial = a transition that minted, converted or closed a batch".into(),
             assumptions: envelope(),
-            essential: vec!["c03_state_rates_checked", "c03_bond_mint_checked", "c03_bondst_mint_checked", "c03_convert_st_to_b_checked", "c03_convert_b_to_st_checked", "c03_batch_close_checked"],
+            essential: vec!["c03_zero_payment", "c03_state_rates_checked", "c03_bond_mint_checked", "c03_bondst_mint_checked", "c03_convert_st_to_b_checked", "c03_convert_b_to_st_checked", "c03_batch_close_checked"],
         },
         "C04" => Check {
             id: "C04",
@@ -95,7 +95,7 @@ pub fn build(id: &str, tier: Tier) -> Option<Check> {
         "C01" => Check {
             id: "C01",
             jobs: vec![
-                bfs(ulc("c01-lifecycle", |h| { h.arm.c01 = true; h.with_bond = !q; h.with_convert = !q; h.with_slash_bonded = true; h.budget = tier.pick(1, 2); h.slash_vals = vec!["val1", "val2"]; h.seeds = vec!["funded", "slashed", "inflight", "two_inflight"]; if !q { h.users = vec![ALICE, BOB, CAROL]; h.seeds.push("three_users"); } }), tier.pick(5, 7), secs),
+                bfs(ulc("c01-lifecycle", |h| { h.arm.c01 = true; h.with_bond = !q; h.with_convert = !q; h.with_slash_bonded = true; h.budget = tier.pick(1, 2); h.slash_vals = vec!["val1", "val2"]; h.seeds = vec!["funded", "slashed", "inflight", "two_inflight"]; if !q { h.users = vec![ALICE, BOB, CAROL]; h.seeds.push("three_users"); } }), tier.pick(4, 6), secs),
                 bfs(ulc("c01-long-history", |h| { h.arm.c01 = true; h.seeds = vec!["ten_batches"]; h.sym = false; h.amounts_abs = vec![3]; h.budget = 1; h.slash_vals = vec!["val1"]; }), tier.pick(4, 6), secs),
                 bfs(ulc("c01-1e15", |h| { h.arm.c01 = true; h.arm.c06 = true; h.scale = 1_000_000_000_000_000; h.sym = false; h.amounts_abs = vec![100, 37]; h.seeds = vec!["two_inflight", "slashed"]; h.slash_vals = vec!["val1", "val2"]; h.budget = tier.pick(2, 3); h.with_rogue = true; }), tier.pick(4, 6), secs),
                 bfs(ulc("c01-pegfee", |h| { h.arm.c01 = true; h.peg_fee = "0.01"; h.seeds = vec!["slashed"]; h.budget = 1; }), tier.pick(5, 7), secs),
@@ -167,8 +167,8 @@ pub fn build(id: &str, tier: Tier) -> Option<Check> {
         },
         "C12" => Check {
             id: "C12",
-            jobs: vec![Box::new(C12Enum { max_len: tier.pick(5, 6), max_val: tier.pick(5, 6) })],
-            rule: "every validator list of length 0..=L with delegations in 0..=V in every order (L=5,V=5 quick; L=6,V=6 thorough), every amount 0..=sum+6, plus the same box scaled by 1e6+3, 1e12+7 and ~1e18/(L*V) with +-1 perturbations of delegations and amounts, through the public calculate_delegations / calculate_undelegations; each call under a 2 s watchdog; non-trivial = accepted plan with amount > 0".into(),
+            jobs: vec![Box::new(C12Enum { max_len: tier.pick(5, 7), max_val: tier.pick(5, 6) })],
+            rule: "every validator list of length 0..=L with delegations in 0..=V in every order (L=5,V=5 quick; L=7,V=6 thorough), every amount 0..=sum+6, plus the same box scaled by 1e6+3, 1e12+7 and ~1e18/(L*V) with +-1 perturbations of delegations and amounts, through the public calculate_delegations / calculate_undelegations; each call under a 2 s watchdog; non-trivial = accepted plan with amount > 0".into(),
             assumptions: vec!["the two planning functions are pure; totals stay below 2^127 (u128-safe range of the property)".into()],
             essential: vec!["c12_empty_list", "c12_lists_with_zero", "c12_unsorted_lists", "c12_undelegate_rejected"],
         },
@@ -230,7 +230,7 @@ pub fn build(id: &str, tier: Tier) -> Option<Check> {
             ],
             rule: "hub-core exploration with AddValidator/RemoveValidator for val1 and val3 enabled in every state (pending rewards, in-flight batches, blocked redelegation after a previous removal, re-addition); every RemoveValidator by the owner is checked against the staking ledger; non-trivial = a removal checked".into(),
             assumptions: envelope(),
-            essential: vec!["c13_removal_checked", "c13_redelegation_checked", "c13_redelegation_blocked", "c13_last_validator", "c13_redelegations_followup_checked"],
+            essential: vec!["c13_removal_checked", "c13_redelegation_checked", "c13_redelegation_blocked", "c13_last_validator", "c13_redelegations_followup_checked", "c13_bond_targets_checked"],
         },
         "C18" => {
             let mut jobs = vec![];
@@ -241,7 +241,7 @@ pub fn build(id: &str, tier: Tier) -> Option<Check> {
                 jobs.push(bfs(sweep, tier.pick(2, 3), secs / 4.0));
                 let mut ops = Token::new(tok, "ops");
                 ops.seeds = vec![vec![], vec![(ALICE, 5), (BOB, 1)]];
-                jobs.push(bfs(ops, tier.pick(5, 6), secs / 2.0));
+                jobs.push(bfs(ops, tier.pick(5, 7), secs / 2.0));
             }
             Check {
                 id: "C18",
